@@ -308,7 +308,7 @@ pub fn run(env: &Env) -> i32 {
     rep.shrink_iters = Some(150);
     let base = work_dir("c15");
     let b2 = base.clone();
-    rep.campaign("routes", env.cases(500, 8_000), (300, 1600), move |case| case_fn(case, &b2));
+    rep.campaign("routes", env.cases(1_500, 12_000), (300, 1600), move |case| case_fn(case, &b2));
     let _ = std::fs::remove_dir_all(&base);
     rep.finish()
 }
